@@ -48,7 +48,7 @@ CHECKS = {
             cfg(name='kinds', Depth=2, SeedIds=[0, 5], Kinds=['V', 'HE', 'M'], Types=['int'], Names=['', 'a', 'b'],
                 MaxV=2, MaxE=1, Ops1=ALL14, Ops2=ALL14 + ['teardown'], OpsN=[]),
             # destruction orders: handles / clear / mesh copies / mesh destruction, deeper
-            cfg(name='lifetimes', Depth=4, SeedIds=[1, 2, 4], Kinds=['V'], Types=['int'], Names=['a'], Overwrite=True,
+            cfg(name='lifetimes', Depth=3, SeedIds=[1, 2, 4], Kinds=['V'], Types=['int'], Names=['a'], Overwrite=True,
                 Ops1=LIFE, Ops2=LIFE, OpsN=['h_drop', 'mesh_destroy', 'clear', 'h_copy', 'mesh_assign', 'teardown']),
         ],
         thorough=[
@@ -167,6 +167,63 @@ def run_tlc(cfgpath, workdir, workers, simulate=None, timeout=3000, heap='8g'):
     return dict(orgs=orgs, transitions=trans, sims=sims, mbad=mbad, stats=stats, wall=time.time() - t0)
 
 
+# ------------------------------------------------------------------ work distribution
+def split_executions(orgs, transitions, cap=600):
+    """One seed's explored tree can hold 10^5 transitions; cut it into sub-trees of
+    at most ~cap transitions (grouped by a common call prefix), each replayed as
+    its own execution from the same seed script, so that shards balance."""
+    by_org = {}
+    for key, path in transitions:
+        by_org.setdefault(key, []).append(path)
+    new_orgs, new_trans = {}, []
+    for key, paths in by_org.items():
+        groups = [paths]
+        depth = 1
+        while True:
+            big = [g for g in groups if len(g) > cap]
+            if not big or depth > 6:
+                break
+            nxt = []
+            for g in groups:
+                if len(g) <= cap:
+                    nxt.append(g)
+                    continue
+                sub = {}
+                for p in g:
+                    sub.setdefault(json.dumps(p[:depth], sort_keys=True), []).append(p)
+                nxt.extend(sub.values())
+            groups = nxt
+            depth += 1
+        # pack small groups together
+        groups.sort(key=len, reverse=True)
+        packs = []
+        for g in groups:
+            for pk in packs:
+                if len(pk) + len(g) <= cap:
+                    pk.extend(g)
+                    break
+            else:
+                packs.append(list(g))
+        for n, pk in enumerate(packs):
+            nk = tuple(key) + ('part', n)
+            new_orgs[nk] = orgs[key]
+            new_trans.extend((nk, p) for p in pk)
+    return new_orgs, new_trans
+
+
+def fix_crash_names(agg):
+    """exec_and_validate rebuilds the crashing call from the script line without its
+    string argument; put the property name back."""
+    for c in agg['crashes']:
+        if c.get('path') and c.get('sid', -1) >= 0 and c.get('script'):
+            try:
+                line = open(c['script']).read().splitlines()[c['sid']]
+            except (OSError, IndexError):
+                continue
+            if ' | ' in line:
+                c['path'][-1]['s'] = line.split(' | ', 1)[1]
+
+
 # ------------------------------------------------------------------ known findings
 def match_known(prop, sig, known):
     """sig: kind ('relation'|'crash'), msg, op (last call), ops (all ops of the history)."""
@@ -217,6 +274,7 @@ def run_check(prop, tier, seed, replay=None):
                drift_lines=0, configs=[], model_findings=[], exhaustive=True)
 
     def absorb(agg):
+        fix_crash_names(agg)
         failures.extend(agg['failures']); crashes.extend(agg['crashes']); drifts.extend(agg['drifts'])
         cov['traces_validated_against_impl'] += agg['checked']
         cov['impl_steps_executed'] += agg['lines']
@@ -230,7 +288,10 @@ def run_check(prop, tier, seed, replay=None):
         cov['samples'].append(dict(replay=replay))
         cov['exhaustive'] = False
     else:
+        only = os.environ.get('VERIF_ONLY')   # development aid: run a single configuration by name
         for n, mc in enumerate(conf[tier]):
+            if only and mc['name'] != only:
+                continue
             cp = os.path.join(work, 'mc%d.cfg' % n)
             write_cfg(cp, mc, prop, 'tree')
             r = run_tlc(cp, work, workers)
@@ -240,7 +301,8 @@ def run_check(prop, tier, seed, replay=None):
             cov['configs'].append(dict(mc, tlc_wall_s=round(r['wall'], 1), generated=r['stats']['generated'],
                                        distinct=r['stats']['distinct'], emitted=len(r['transitions']), model_bad=len(r['mbad'])))
             mfind += r['mbad']
-            scripts = vlib.tree_scripts(r['orgs'], r['transitions'], '', vlib.NCPU * 2, mesh='props', stamp=False)
+            o2, t2 = split_executions(r['orgs'], r['transitions'])
+            scripts = vlib.tree_scripts(o2, t2, '', vlib.NCPU * 2, mesh='props', stamp=False)
             if r['transitions'] and len(cov['samples']) < 4:
                 k, p = r['transitions'][len(r['transitions']) // 2]
                 cov['samples'].append(dict(config=mc['name'], seed_script=r['orgs'][k], calls=p))
@@ -249,7 +311,7 @@ def run_check(prop, tier, seed, replay=None):
                 (prop, n, agg['lines'], agg['checked'], agg['bad'], agg['drift'], len(agg['crashes'])))
             absorb(agg)
         sim = conf.get('sim')
-        if sim:
+        if sim and not (only and only != 'random'):
             num, depth = (60, 25) if tier == 'quick' else (1500, 40)
             c = cfg(name='random', Depth=depth + 1, Ops1=sorted(set(sim['ops'])), Ops2=[], OpsN=[],
                     **{k: v for k, v in sim.items() if k != 'ops'})
@@ -258,7 +320,7 @@ def run_check(prop, tier, seed, replay=None):
             r = run_tlc(cp, work, 1, simulate=dict(num=num, depth=depth, seed=seed))
             hist = r['sims']
             mfind += r['mbad']
-            scripts = [vlib.linear_script(h['script'] + h['path'], '', mesh='props', stamp_every=False, silent_prefix=len(h['script']))
+            scripts = [vlib.linear_script(h['script'] + h['path'], '', mesh='props', stamp_every=True, silent_prefix=len(h['script']))
                        for h in hist]
             nsh = vlib.NCPU
             shards = [''.join(scripts[i::nsh]) for i in range(nsh) if scripts[i::nsh]]
@@ -297,7 +359,7 @@ def run_check(prop, tier, seed, replay=None):
         dedup = (sig['msg'], sig['op'])
         if dedup in printed:
             continue
-        if replay or not f.get('script'):
+        if replay or not f.get('script') or 'x' not in f:
             p, again = (replay or f.get('script', '')), True
         else:
             nconf += 1
